@@ -108,7 +108,7 @@ theorem inv_rm (w : MW) (h : InvCore w) (x s : Nat) (xe se : SigE) (gc gs : Int)
         rw [hG.2] at hjg
         exact ⟨_, getD_mem xe.mx.groups j [] (by rw [← hG.1]; exact hj), hjg.symm⟩
       refine ⟨⟨by show mx'.groups.length = _; rw [hG.1]; exact hxo.shape.1, hxo.shape.2.1, hxo.shape.2.2⟩,
-        ?_, ?_, ?_, ?_, ?_, ?_, ?_, ?_, ?_, ?_⟩
+        ?_, ?_, ?_, ?_, ?_, ?_, ?_, ?_, ?_, ?_, by show mx'.signals.Nodup; rw [hS]; exact nodup_sDel _ _ hxo.sigsNodup⟩
       · intro g' hg'
         obtain ⟨g, hg, rfl⟩ := hgrp g' hg'
         have hst : ∀ i ∈ g, (w.sigs.get i).isSome := by
